@@ -267,6 +267,9 @@ class MultiAntennaArray(object):
         samples : array
             Array of voltage samples, of shape (num_antennas, num_pols, num_samples)
         """
+        # A Python integer: with a numpy fixed-width num_samples, num_samples + max_delay can wrap around
+        num_samples = int(num_samples)
+        
         # Check that num_samples is always larger than the maximum antenna delay
         assert num_samples > self.max_delay
         
